@@ -351,6 +351,10 @@ BEAN_MAP_OPS = {
     "dashmap::DashMap::entry": "read", "dashmap::DashMap::get": "read", "dashmap::DashMap::get_mut": "read", "dashmap::DashMap::contains_key": "read",
     "dashmap::DashMap::remove": "remove", "dashmap::DashMap::len": "read", "dashmap::DashMap::is_empty": "read", "dashmap::DashMap::new": "read",
     "dashmap::DashMap::default": "read", "dashmap::Entry::key": "read", "dashmap::OccupiedEntry::get": "read", "dashmap::OccupiedEntry::key": "read",
+    "dashmap::DashMap::iter": "read", "dashmap::DashMap::try_get": "read", "dashmap::DashMap::view": "read", "dashmap::DashMap::capacity": "read",
+    "dashmap::DashMap::with_capacity": "read", "dashmap::DashMap::hasher": "read", "dashmap::DashMap::try_entry": "read", "dashmap::VacantEntry::key": "read",
+    "dashmap::VacantEntry::into_key": "read", "dashmap::DashMap::remove_if": "remove", "dashmap::OccupiedEntry::remove": "remove",
+    "dashmap::OccupiedEntry::remove_entry": "remove", "dashmap::DashMap::clear": "remove",
     # replace the value of a name that is already published
     "dashmap::DashMap::insert": "rebind", "dashmap::OccupiedEntry::insert": "rebind", "dashmap::OccupiedEntry::replace_entry": "rebind",
     "dashmap::Entry::insert": "rebind", "dashmap::Entry::insert_entry": "rebind", "dashmap::Entry::and_modify": "rebind", "dashmap::DashMap::alter": "rebind",
